@@ -89,7 +89,7 @@ def execute(sc):
     for plan in plans:
         hf = run_history(copy.deepcopy(sc), want_idempotence=False, faults=[plan], audits=False)
         sm = hf['seams'][0]
-        if not sum(sm.fired.values()):
+        if not sum(f_.get('_fired', 0) for f_ in sm.faults):
             c['fault_not_reached'] = c.get('fault_not_reached', 0) + 1
             continue
         nfault += 1
